@@ -283,7 +283,7 @@ func (w *World) CheckConservation(n *Node) {
 			overdrawn++
 			own := false
 			for _, h := range spends[addr] {
-				if ev := n.Eval[h]; ev != nil && ev.Exempt == "" && !ev.OK {
+				if ev := n.Eval[h]; ev != nil && ev.Exempt == "" && !ev.OK && !ev.CheckpointOverdrawn {
 					own = true
 				}
 			}
